@@ -35,6 +35,8 @@ class RMWorld(CompWorld):
       ('reserve', i)                   reserve_resources(REQUESTS[i])      (at most `max_res` live objects)
       ('release', k, j)                reservation k .release(RELEASES[j]) (None = everything)
       ('merge', k, l)                  reservation k .merge(reservation l), k != l
+      ('resys',)                       the manager is handed to a new System(resource_manager=rm), which is started
+                                       (simulate(0)): the documented way to share one manager between models
     '''
     _canon_skip = CompWorld._canon_skip + ('adds', 'requests', 'releases', 'max_res')
 
@@ -60,6 +62,8 @@ class RMWorld(CompWorld):
         for k in range(len(self.res)):
             out += [('release', k, j) for j in range(len(self.releases))]
             out += [('merge', k, l) for l in range(len(self.res)) if l != k]
+        if self.params.get('resys', True):
+            out.append(('resys',))
         return self.restrict_first(out)
 
     # reference semantics ---------------------------------------------------------------
@@ -96,6 +100,8 @@ class RMWorld(CompWorld):
                 self.res[label[1]].release(spec)
             elif k == 'merge':
                 self.res[label[1]].merge(self.res[label[2]])
+            elif k == 'resys':
+                self.new_system()
             else:
                 raise HarnessError(f'unknown op {label}')
         except (ValueError, KeyError, AssertionError, TypeError) as e:
@@ -128,8 +134,25 @@ class RMWorld(CompWorld):
         self.env.simulation_data.clear()
         self.check(desc)
 
+    def new_system(self):
+        from simprocesd.model import System
+        from simprocesd.model.factory_floor.asset import Asset
+        saved = (Asset._id_counter, System._instance)
+        try:
+            s = System(resource_manager=self.rm)
+            s.simulate(0, print_summary=False)
+        finally:
+            Asset._id_counter, System._instance = saved
+        if self.rm._env is not s._env:
+            raise Violation('resys', 'after System(resource_manager=rm).simulate() the manager does not use that system\'s environment')
+        self.env = s._env
+        self.system = s
+        self.facts.append('resys')
+
     def describe(self, label):
         k = label[0]
+        if k == 'resys':
+            return 'System(resource_manager=rm).simulate(0)'
         if k == 'add':
             return f'add_resources{self.adds[label[1]]}'
         if k == 'reserve':
